@@ -4,14 +4,14 @@ import json
 from . import core
 
 LEVEL_TEXT = (
-    "Lean 4 theorems over a uniform-tree model of the TIR and of the traversals of reduce/mod.rs: every unresolved value parameter found by an independent generic walk is reported by params (any position: index operands, query bodies, directive values, compiler-op operands); after applying an argument for every reported parameter, a UTxO set for every reported query and a fee, the walk finds nothing, for every expression and for the whole transaction; the resolver's argument guard names an absent reported parameter; arguments may arrive in rounds: two rounds are one round with the joint map, on expressions and transactions (C06_args_in_rounds, C06_tx_args_in_rounds). Tied to the code by a position-complete correspondence sweep (a parameter/input/fees in every child position of every node kind) and random templates, with a third observer walking the serde data model of the real Tx."
+    "Lean 4 theorems over a uniform-tree model of the TIR and of the traversals of reduce/mod.rs: every unresolved value parameter found by an independent generic walk is reported by params (any position: index operands, query bodies, directive values, compiler-op operands); after applying an argument for every reported parameter, a UTxO set for every reported query and a fee, the walk finds nothing, for every expression and for the whole transaction; the resolver's argument guard names an absent reported parameter; what lowering writes for chain-specific directives is fresh too, hence Sealed and WF (lowerTxFull_sealed_WF); arguments may arrive in rounds: two rounds are one round with the joint map, on expressions and transactions (C06_args_in_rounds, C06_tx_args_in_rounds). Tied to the code by a position-complete correspondence sweep (a parameter/input/fees in every child position of every node kind) and random templates, with a third observer walking the serde data model of the real Tx."
 )
 LEVEL_NOTE = (
     'Trusted: Lean kernel + the three standard axioms, harness/driver, the hand-written traversal model (tied by correspondence). Hypothesis Sealed (Set payloads and UTxO-embedded expressions are closed) holds for the apply stages and, as a theorem, for every slot of every transaction the lowering model produces (lower_fresh, lowerTx_sealed_WF: lowering writes no Set and no UTxO set, and placeholders without children); that reduce keeps a closed expression closed is proved for expressions (C06_reduce_keeps_closed, C06_closes_after_reduce) and checked per case for whole transactions.'
 )
 PROP = "C06"
-LEAN_TARGETS = ["Tx3Proofs.C06", "Tx3Proofs.C06Reduce", "Tx3Proofs.C06Lower", "Tx3Proofs.C06Partial"]
-AUDIT_MODULES = ["Tx3Proofs.C06", "Tx3Proofs.C06Reduce", "Tx3Proofs.C06Lower", "Tx3Proofs.C06Partial"]
+LEAN_TARGETS = ["Tx3Proofs.C06", "Tx3Proofs.C06Reduce", "Tx3Proofs.C06Lower", "Tx3Proofs.C06Partial", "Tx3Proofs.C06LowerAdhoc"]
+AUDIT_MODULES = ["Tx3Proofs.C06", "Tx3Proofs.C06Reduce", "Tx3Proofs.C06Lower", "Tx3Proofs.C06Partial", "Tx3Proofs.C06LowerAdhoc"]
 THEOREMS = [
     "Tx3.Expr.C06_reported_complete", "Tx3.Expr.C06_closes",
     "Tx3.C06_tx_closes", "Tx3.C06_tx_reported_complete",
@@ -20,7 +20,7 @@ THEOREMS = [
     "Tx3.Expr.fresh_sealed", "Tx3.Expr.fresh_WF", "Tx3.Lang.lower_fresh", "Tx3.Lang.lowerTx_fresh",
     "Tx3.Lang.lowerTx_sealed_WF",
     "Tx3.Expr.C06_args_in_rounds", "Tx3.C06_tx_args_in_rounds", "Tx3.C06_rounds_pending",
-]
+    "Tx3.Lang.lowerDirective_all", "Tx3.Lang.lowerTxFull_fresh", "Tx3.Lang.lowerTxFull_sealed_WF"]
 
 RULE = (
     "cases = TIR transactions: a position-complete sweep (a value parameter, `fees`, an input and an "
